@@ -332,6 +332,7 @@ func Watch(name string, limit time.Duration) (stop func()) {
 		t := time.NewTicker(2 * time.Second)
 		defer t.Stop()
 		seen, since := -1, time.Now()
+		noted := false
 		for {
 			select {
 			case <-quit:
@@ -347,6 +348,17 @@ func Watch(name string, limit time.Duration) (stop func()) {
 				if idle := time.Since(since); idle > limit {
 					buf := make([]byte, 1<<21)
 					n := runtime.Stack(buf, true)
+					// A wedge means nothing in the process can run any more. A goroutine that is running or runnable
+					// (other than this one) means the process is busy or starved of CPU/memory by the machine: that
+					// is not a statement about the code under test - keep waiting (the driver's own deadline turns an
+					// endless wait into an inconclusive run).
+					if busy := busyGoroutines(string(buf[:n])); busy > 0 {
+						if !noted {
+							noted = true
+							fmt.Printf("vt watchdog: %s: no case finished for %s but %d goroutines are runnable - slow machine, not a wedge\n", name, idle.Round(time.Second), busy)
+						}
+						continue
+					}
 					fmt.Printf("--- FAIL: %s\n    WEDGE: no progress for %s after: %s\n    a call, reply or shutdown step never returned and virtual time cannot advance (a goroutine is blocked on a lock for ever); goroutines:\n%s\n", name, idle.Round(time.Second), what, buf[:n])
 					os.Exit(1)
 				}
@@ -354,4 +366,28 @@ func Watch(name string, limit time.Duration) (stop func()) {
 		}
 	}()
 	return func() { close(quit) }
+}
+
+// busyGoroutines counts goroutines of a full stack dump that are running or runnable, not counting the one that
+// took the dump.
+func busyGoroutines(dump string) int {
+	n := 0
+	for _, blk := range strings.Split(dump, "\n\n") {
+		hdr := blk
+		if i := strings.IndexByte(blk, '\n'); i >= 0 {
+			hdr = blk[:i]
+		}
+		if !strings.HasPrefix(hdr, "goroutine ") {
+			continue
+		}
+		i := strings.IndexByte(hdr, '[')
+		if i < 0 {
+			continue
+		}
+		state := hdr[i+1:]
+		if strings.HasPrefix(state, "runnable") || (strings.HasPrefix(state, "running") && !strings.Contains(blk, "vt.Watch")) {
+			n++
+		}
+	}
+	return n
 }
